@@ -45,7 +45,7 @@ def main():
     if os.path.exists(extra):
         spec = importlib.util.spec_from_file_location("claims", extra)
         m = importlib.util.module_from_spec(spec)
-        m.claim, m.na, m.TB = claim, na, TB
+        m.claim, m.na, m.TB, m.CLAIMS = claim, na, TB, CLAIMS
         spec.loader.exec_module(m)
     checks = []
     for pid in ALL:
